@@ -255,11 +255,6 @@ GProbes == (Part = "glob" /\ s.pc = "ap" /\ s.out = {} /\ s.c.o = MetaOpts) =>
               /\ (GProbesApP(s.c.t, ImplProbes(s.c.t)) \/ DevProbesNidq(s.c.t, ImplProbes(s.c.t)))
               /\ GVersionP(s.c.t, ImplVersionFolder(s.c.t))
 GProbesLabels == (GDone /\ s.c.o = MetaOpts) => GProbesP(ImplProbes(s.c.t), s.out)
-\* vacuity control: each deviation class and each branch must be reachable in the box (checked as invariants expected to FAIL)
-ReachNoDevRecursive == GDone => GRecursiveP(s.c.o, s.out)
-ReachNoDevNidqNone == GDone => GExistsP(s.c.t, s.c.o, s.out)
-ReachNoGhost == GDone => \A e \in s.out : e.file = NoFile \/ Exists(s.c.t, e.fdir, e.file)
-ReachNoChoice == GDone => \A e \in s.out : e.file.e # "cbin"
 
 -----------------------------------------------------------------------------
 (***************************************************************************)
@@ -331,8 +326,6 @@ SJudged == Part = "sync" /\ s.pc = "done" /\ s.res.exc = "" /\ s.c.sys \in {"3A"
 SSound == SJudged => SSoundP(s.c, s.res.map)
 SComplete == SJudged => SCompleteP(s.c, s.res.map)
 SAnalog == SJudged => SAnalogP(s.c, s.res.map)
-ReachNoOverride == SJudged => \A x \in Lines(s.c) : s.res.map[x[1]] = x[2]      \* expected to fail: two pins, one name
-ReachNoKeyError == (Part = "sync" /\ s.pc = "done") => s.res.exc # "KeyError"    \* expected to fail
 
 -----------------------------------------------------------------------------
 (***************************************************************************)
@@ -394,8 +387,6 @@ RCompress == RFin => RCompressP(s.c, s.st)
 \* nothing is written before the preconditions have been checked (every state, not only the last)
 RNoEarlyWrite == Part = "recon" => (s.st.pc \in {"new", "constructed", "prepared", "params"} => s.st.files \subseteq {"meta"})
 RRunAgrees == RFin => s.st = ReconRun(s.c, ReconStart(s.c))
-ReachNoKept == RFin => s.st.meta # "pre" \/ s.st.status # 1      \* expected to fail
-ReachNoRaise == RFin => s.st.exc = ""                           \* expected to fail
 
 -----------------------------------------------------------------------------
 (***************************************************************************)
@@ -462,9 +453,6 @@ LNotOpen == LOn => (LNotOpenStrictP(s.everb, s.a, s.obs) \/ DevFlatUnset(s.kind,
 LRelease == LOn => LReleaseP(s.a, s.obs, s.st.h)
 LTruthful == LOn => (LTruthfulP(s.st.h, IsOpenVal(s.st)) \/ DevStale(s.st.h, IsOpenVal(s.st)) \/ DevFlatUnset(s.kind, s.st.h, IsOpenVal(s.st)))
 LWith == LOn => (LWithP(s.a, s.obs, s.st.h) \/ DevStale(s.st.h, IsOpenVal(s.st)))
-ReachNoStale == LOn => ~DevStale(s.st.h, IsOpenVal(s.st))                       \* expected to fail
-ReachNoFlatUnset == LOn => ~DevFlatUnset(s.kind, s.st.h, IsOpenVal(s.st))       \* expected to fail
-ReachNoDanger == Part = "reader" => s.obs # "DANGER"                            \* expected to fail
 
 -----------------------------------------------------------------------------
 Init == CASE Part = "glob" -> GlobInit [] Part = "sync" -> SyncInit [] Part = "recon" -> ReconInit
